@@ -67,7 +67,7 @@ def cut_segment(trace, tid, dst):
     cur = None
     with open(trace) as fh, open(dst, "w") as out:
         for line in fh:
-            if '"ev":"reset"' in line:
+            if '"ev":"reset"' in line or '"ev":"areset"' in line:
                 try:
                     cur = json.loads(line).get("id")
                 except ValueError:
@@ -113,6 +113,8 @@ def replay_file(pid, path, work):
         res = validate(work, os.path.abspath(path), "replay", module="PersistTrace", cfg="PersistTrace.cfg")
     elif mode == "counter":
         res = validate(work, os.path.abspath(path), "replay", module="CounterTrace", cfg="CounterTrace.cfg")
+    elif mode == "api":
+        res = validate(work, os.path.abspath(path), "replay", module="ApiTrace", cfg="ApiTrace.cfg")
     elif mode == "bloom":
         res = validate(work, os.path.abspath(path), "replay", module="BloomTrace", cfg="BloomTrace.cfg")
     elif mode == "rbmutex":
